@@ -312,6 +312,18 @@ func parseDecimal(s string, prec uint) (*big.Float, error) {
 	// of two values; round the exact rational value of the literal instead.
 	if r, ok := new(big.Rat).SetString(s); ok && r.Sign() != 0 && !x.IsInf() {
 		x.SetRat(r)
+		// A subnormal value has fewer significant bits than prec: round the
+		// exact value once, to the format itself.
+		switch prec {
+		case 53:
+			if f, _ := r.Float64(); math.Abs(f) < 0x1p-1022 {
+				x.SetFloat64(f)
+			}
+		case 24:
+			if f, _ := r.Float32(); f < 0x1p-126 && f > -0x1p-126 {
+				x.SetFloat64(float64(f))
+			}
+		}
 	}
 	return x, nil
 }
